@@ -271,6 +271,22 @@ def run_case(case, rec):
             d = mn + extra
             if not one_space(case, rec, built, g, model, d, extra == 0):
                 break
+        # the documented way of configuring a grammar - `Prod.__init__.__annotations__[field] = NewType`, then a new
+        # extraction - applied to the SAME class objects after they have served a first grammar: creation has to reach
+        # the language of the grammar as it is declared NOW
+        d2 = grammars.retyped(desc, pyrandom.Random(case["s"]))
+        if d2 is not None:
+            b2 = grammars.apply_retype(built, d2)
+            try:
+                g2 = grammars.extract(b2)
+                mn2 = g2.get_min_tree_depth()
+            except core.CaseTimeout:
+                raise
+            except BaseException:  # noqa
+                return
+            if mn2 < 1000000:
+                rec.count("redeclared_grammars_enumerated")
+                one_space(dict(case, desc=d2), rec, b2, g2, refmodel.Model(b2.classes, b2.start), mn2, True)
     finally:
         built.dispose()
 
